@@ -188,6 +188,14 @@ class Recognizer(IRecognizer):
         if bool in recognized_types and bool_union_fix in recognized_types:
             recognized_types.remove(bool_union_fix)
 
+        if len(recognized_types) > 1:
+            # Let the user disambiguate with an explicit tag, also if the
+            # other candidates are not classes, e.g. Union[A, Dict[str, int]]
+            if node.tag in self.__registered_classes:
+                typ = self.__registered_classes[node.tag]
+                if typ in recognized_types:
+                    return {typ}, REC_OK
+
         if len(recognized_types) == 0:
             message = (
                     '{}\nExpected one of the following types,'
